@@ -1306,6 +1306,13 @@ pub fn run_c17(tier: Tier) -> i32 {
             exps.push(Exp::new("engine limits", cfg_with(false, false, 0), alpha.clone(), seeds.clone(), 4));
         }
     }
+    // whole closes that leave the band (partial ratio 100 %, non-zero fluctuation limit)
+    {
+        let mut c = cfg_with(true, false, D);
+        c.fluct = 50_000;
+        c.imr = 100_000;
+        exps.push(Exp { setup: None, name: "engine limits over the band".into(), cfg: c, traders: T2.to_vec(), seeds: vec![vec![]], alpha: Alpha::Dyn(alpha_c15), depth: tier.pick(3, 5), init_mon: Value::Null });
+    }
     run_exps(&mut run, step_c17_eng, exps, |_| {});
     run.finish()
 }
